@@ -4,6 +4,7 @@
 -/
 import AxVerif.Model.Parse
 import AxVerif.Model.Step
+import AxVerif.Model.Elf
 open Ax
 
 /-- driver state: the machine, the hook table, the decode facts supplied by the harness -/
@@ -296,10 +297,60 @@ def handleMachine (st : DState) (ws : List String) : Option (DState × String) :
         ";".intercalate (((st.m.sys.pipes.toArray.qsort (fun a b => a.1 < b.1)).toList).map fun (r, w, c) => s!"{toHex r},{toHex w},{bytesToHex c}")))
   | _ => none
 
+/-! ### ELF view (`@view=` feedback of `elfload`) -/
+
+def parseSeg (t : String) : Option ElfSeg :=
+  match ((t.drop 1).toString.splitOn ",").mapM parseHex? with
+  | some [ty, fl, off, va, fsz, msz] => some { ptype := ty, flags := fl, offset := off, vaddr := va, filesz := fsz, memsz := msz }
+  | _ => none
+
+def parseSym (t : String) : Option ElfSym :=
+  match (t.drop 1).toString.splitOn "," with
+  | [v, u, n] => do
+    let v ← parseHex? v
+    let name : Option (Option String) :=
+      if n == "!" then some none
+      else if n == "-" then some (some "")
+      else match parseHexBytes? n with
+        | some bs => some (some (String.fromUTF8! (ByteArray.mk (bs.map (fun b => UInt8.ofNat b.toNat)).toArray)))
+        | none => none
+    let name ← name
+    pure { value := v, undef := u == "1", name := name }
+  | _ => none
+
+/-- `none`: malformed token; `some none`: the crate's `minimal_parse` failed -/
+def parseView (t : String) : Option (Option ElfView) :=
+  if !t.startsWith "@view=" then none else
+  let body := (t.drop 6).toString
+  if body == "P" then some none else
+  match body.splitOn ";" with
+  | e :: rest => do
+    let entry ← parseHex? (e.drop 1).toString
+    if rest == ["N"] then pure (some { entry := entry, segs := none, syms := none }) else
+    let segToks := rest.takeWhile (fun x => x.startsWith "S")
+    let tail := rest.dropWhile (fun x => x.startsWith "S")
+    let segs ← segToks.mapM parseSeg
+    match tail with
+    | "U" :: _ => pure (some { entry := entry, segs := some segs, syms := none })
+    | "T" :: ys => do
+      let ys ← ys.mapM parseSym
+      pure (some { entry := entry, segs := some segs, syms := some ys })
+    | _ => none
+  | _ => none
+
 def poisonable (ws : List String) : Bool :=
   match ws with
   | "dec" :: _ => false
   | _ => true
+
+def handleNew (st : DState) (code start rip : String) : DState × String :=
+  match parseHexBytes? code, parseHex? start, parseHex? rip with
+  | some c, some s, some r =>
+    match Machine.new Regs.zero c s r with
+    | .ok m => ({ m := m }, "ok")
+    | .err => (st, "err")
+    | .panic => (st, "panic")
+  | _, _, _ => (st, "bad-op")
 
 def handle (st : DState) (ws : List String) : DState × String :=
   match ws with
@@ -308,14 +359,37 @@ def handle (st : DState) (ws : List String) : DState × String :=
     | .ok s => ({ m := s }, "ok")
     | .err => (st, "err")
     | .panic => (st, "panic")
-  | ["new", code, start, rip] =>
-    match parseHexBytes? code, parseHex? start, parseHex? rip with
-    | some c, some s, some r =>
-      match Machine.new Regs.zero c s r with
+  | ["new", code, start, rip] => handleNew st code start rip
+  | ["newraw", code, start, rip] => handleNew st code start rip
+  | ["elfload", file, fb] =>
+    match parseHexBytes? file, parseView fb with
+    | some bytes, some none => (st, "err")
+    | some bytes, some (some v) =>
+      -- areas of more than 16 MiB are not materialised as lists here (the theorems do not care; the implementation's
+      -- outcome is still judged by the crash oracle)
+      let big := match v.segs with
+        | some segs => segs.any (fun sg => sg.ptype == PT_LOAD && sg.vaddr != 0 && sg.memsz > 2 ^ 24 && sg.memsz ≤ MAX_IMAGE_SIZE)
+        | none => false
+      if big then ({ st with poisoned := true }, "unspecified") else
+      match fromBinary Regs.zero bytes v with
       | .ok m => ({ m := m }, "ok")
       | .err => (st, "err")
       | .panic => (st, "panic")
-    | _, _, _ => (st, "bad-op")
+    | _, _ => (st, "bad-op")
+  | ["perm", a] =>
+    if st.poisoned then (st, "unspecified") else
+    match parseHex? a with
+    | some a => (st, match findArea st.m.mem a with | some ar => toHex ar.access | none => "none")
+    | none => (st, "bad-op")
+  | ["sym", a] =>
+    if st.poisoned then (st, "unspecified") else
+    match parseHex? a with
+    | some a => (st, match symLookup st.m.symbols a with
+        | some n => "some " ++ (if n.isEmpty then "-" else bytesToHex (n.toUTF8.toList.map (fun b => BitVec.ofNat 8 b.toNat)))
+        | none => "none")
+    | none => (st, "bad-op")
+  | ["symcount"] =>
+    if st.poisoned then (st, "unspecified") else (st, toHex st.m.symbols.length)
   | _ =>
     if st.poisoned && poisonable ws then (st, "unspecified") else
     match handleReg st ws with
